@@ -242,4 +242,3 @@ func (f *Flat) snapMsg(sb *strings.Builder, m protoreflect.Message) {
 	}
 	sb.WriteString("u " + vh.Hex(m.GetUnknown()) + " )")
 }
-
